@@ -3,14 +3,20 @@ NOTES = ("All checks are driven by /verif/check (python3, stdlib). Specification
          "/verif/harness (binary gv) and the goml CLI are rebuilt from /repo's working tree on every run with --cfg goml_verif. "
          "Exit 0 = held (KNOWN-FINDING lines for defects listed in known_findings.json), 1 = VIOLATION, 2 = tool error.")
 ENGINES = [
-    {"name": "tlc", "path": "/verif/spec", "serves_properties": ["C01", "C02", "C05", "C06", "C07", "C08", "C09", "C10", "C11", "C12", "C13", "C15", "C16", "C17", "C18"],
+    {"name": "tlc", "path": "/verif/spec", "serves_properties": ["C01", "C02", "C05", "C06", "C07", "C08", "C09", "C10", "C11", "C12", "C13", "C14", "C15", "C16", "C17", "C18"],
      "kind_free_text": "TLA+ specifications model-checked / simulated by TLC 1.8"},
-    {"name": "gv", "path": "/verif/harness", "serves_properties": ["C01", "C02", "C05", "C06", "C07", "C08", "C09", "C10", "C11", "C12", "C13", "C15", "C16", "C17", "C18"],
+    {"name": "gv", "path": "/verif/harness", "serves_properties": ["C01", "C02", "C05", "C06", "C07", "C08", "C09", "C10", "C11", "C12", "C13", "C14", "C15", "C16", "C17", "C18"],
      "kind_free_text": "Rust conformance harness with path dependencies on /repo/crates/*, and the goml CLI built from /repo"},
 ]
 PENDING = "check not built yet in this round (planned in DESIGN.md §4); not a claim that the technique cannot apply"
 NOT_APPLICABLE = {p: PENDING for p in ["C%02d" % i for i in range(1, 21)]}
 CHECKS = {
+    "C14": {
+        "level": "model_checking",
+        "technique": "BuildOrder.tla enumerates DAG shapes x all build orders with predicted per-step verdicts (TLC checks topological <=> everything builds); each order is executed through the real build/check/link CLI on files; linked Go compared with whole-program Go by GoStatic/GoSem",
+        "text": "For chain, fan-in, diamond and direct+transitive import shapes over four packages, TLC enumerates all 24 orders of build invocations and predicts each build's success and linkability. The driver performs the steps on real files (build against the interfaces written so far, check vs build interface equality, link), compares every verdict, and for every successful link requires the linked Go to be valid and to behave exactly like the Go obtained by compiling the whole project at once (GoSem outcomes equal), with content that crosses package boundaries in every way (generic functions instantiated in dependents, foreign traits implemented for local types, bounded generics, enums/structs matched across packages).",
+        "note": "Quick runs 4 orders per shape, thorough all 96; equivalence is between the two compilation routes (both executed by GoSem), not against GomlSem.",
+    },
     "C16": {
         "level": "model_checking",
         "technique": "Coherence.tla enumerates all package/placement configurations with their rule-violation sets and proves (TLC) that the orphan rule with acyclic resolved imports implies coherence; sampled configurations are written as directory trees, compiled by the real pipeline and the verdict class compared; accepted ones executed by GoSem",
